@@ -270,3 +270,21 @@ Theorem next_sender_tx_as_modelled :
      "return nil"; "return cursor.Value.(sdk.Tx)"]%string /\ next_sender_nil_guard = true).
 Proof. exact gen_next_sender_tx. Qed.
 Print Assumptions next_sender_tx_as_modelled.
+
+(** the priority function AS WIRED: app.go hands the SDK ante handler [TxFeeChecker: palomamodule.TxFeeSkipper],
+    which gives every transaction the CheckTx priority 42 (translated); hence, in the application, a
+    single-message consensus / scheduler / evm / valset transaction ranks strictly above every other
+    transaction, unconditionally (the side condition of [priority_classes] is discharged), and priorities
+    are above MinInt64 (the guard [priorities_above_min] holds for every admitted transaction) *)
+Theorem app_priority_classes :
+  Gen.C19.app_tx_fee_checker = "palomamodule.TxFeeSkipper"%string /\
+  Gen.C19.app_check_tx_priority < Gen.C19.max_int64 - 3 /\ min_value < Gen.C19.app_check_tx_priority /\
+  forall us1 us2 i, tx_class us1 = Some i ->
+    match tx_class us2 with
+    | Some j => ((i < j)%nat -> tx_priority us2 Gen.C19.app_check_tx_priority < tx_priority us1 Gen.C19.app_check_tx_priority) /\
+                (i = j -> tx_priority us2 Gen.C19.app_check_tx_priority = tx_priority us1 Gen.C19.app_check_tx_priority)
+    | None => tx_priority us2 Gen.C19.app_check_tx_priority = Gen.C19.app_check_tx_priority /\
+              tx_priority us2 Gen.C19.app_check_tx_priority < tx_priority us1 Gen.C19.app_check_tx_priority
+    end.
+Proof. exact app_priority_classes_proof. Qed.
+Print Assumptions app_priority_classes.
